@@ -74,6 +74,8 @@ func checkC09(p *Program, r *Report) {
 		"the generators (genny from the module cache, ow-specgen from /repo/pre) are the oracle: this is the one place repository code is executed, and it is generator code, not code under test",
 		"ow-specgen orders Dimensions by ranging over a map: with two or more dimension names in one model its output would be order-dependent; all specs have at most one today and the rule fails if one gets two")
 
+	checkDescribeParameter(p, r)
+
 	// ---- R09.1
 	tmp, err := os.MkdirTemp("", "owregen")
 	if err != nil {
